@@ -128,6 +128,10 @@ func init() {
 	verifAPI["verifOr"] = func(fr *frame, args []value) value {
 		return fr.lift(args, func(a []value) value { return a[0].(bool) || a[1].(bool) })
 	}
+	verifAPI["verifHook"] = func(fr *frame, args []value) value {
+		fr.i.ctx.env.hooks[fr.concreteString(args[0])] = args[1].(iface).v
+		return nil
+	}
 	verifAPI["verifMapOrder"] = func(fr *frame, args []value) value {
 		fr.i.ctx.mapOrder = int(fr.concreteInt(args[0]))
 		return nil
